@@ -1,7 +1,7 @@
 (* C17 - resuming a session re-sends exactly the unfinished outbound handshakes.
    The disconnection is recorded through the hook the property names
    (Context::verif_mark_disconnected, --cfg poster_verif); elapsed time is a model parameter. *)
-From Poster Require Import Model.Client Proofs.ClientP Proofs.HandshakeP.
+From Poster Require Import Model.Client Proofs.ClientP Proofs.QuotaP Proofs.HandshakeP Proofs.ResumeP.
 
 (* expiry: interval 0, or a finite interval that has elapsed; 0xFFFFFFFF never expires *)
 Theorem C17_expiry : forall (x : ctx) (t : N), t < 4294967296 ->
@@ -44,3 +44,30 @@ Theorem C17_queue_acks : forall (s : sys) (p : rxpkt),
   end.
 Proof. exact retx_ack. Qed.
 Print Assumptions C17_queue_acks.
+
+(* ---- every history of Context steps ------------------------------------------------------------------------
+   `unfinished s g evs` (Proofs/ResumeP.v, written from the property) follows a history of handle messages and
+   inbound packets and keeps the list of unfinished outbound handshakes in first-transmission order: a QoS>0
+   PUBLISH from the moment it is written (stored with DUP=1) until its PUBACK/PUBREC; a PUBREL from the moment
+   it is written until its PUBCOMP.  After ANY history the retransmit queue is exactly that list ... *)
+Theorem C17_queue_is_unfinished : forall (evs : list qev) (s : sys), wbudget s = None ->
+  retx (c (run_q s evs)) = unfinished s (retx (c s)) evs /\ wbudget (run_q s evs) = None.
+Proof. exact retx_history. Qed.
+Print Assumptions C17_queue_is_unfinished.
+(* ... so resuming an unexpired session re-sends exactly the unfinished handshakes, in their original order,
+   and nothing that was acknowledged *)
+Theorem C17_resume : forall (evs : list qev) (s : sys), wbudget s = None ->
+  let s' := run_q s evs in
+  wire_ev (fst (retransmit s' (retx (c s')))) = wire_ev s' ++ concat (map snd (unfinished s (retx (c s)) evs)).
+Proof. exact resume_wire. Qed.
+Print Assumptions C17_resume.
+
+Example C17_nonvacuous :
+  let s0 := set_c sys_init (mkctx [] [] [] [] 5 5 None 0 None) in
+  let pub1 := [50; 5; 0; 1; 116; 0; 1; 0] in let pub2 := [52; 5; 0; 1; 116; 0; 2; 0] in let rel2 := [98; 2; 0; 2] in
+  unfinished s0 []
+    [QMsg (MSub 9 (aid 9 7) 1 [130; 0]); QMsg (MAwait 0 1 (aid 4 1) pub1); QMsg (MAwait 1 1 (aid 5 2) pub2);
+     QPkt (mkrx KPubrec false false false 0 2 0 [] [] [] []); QMsg (MAwait 1 2 (aid 7 2) rel2);
+     QPkt (mkrx KPuback false false false 0 1 0 [] [] [] [])]
+  = [(aid 7 2, rel2)].
+Proof. vm_compute. reflexivity. Qed.
